@@ -16,8 +16,8 @@ thresholds and every `_alpha_tr` that meets its specification, after ANY number 
   iterate and the model value never increases, so the step handed over is never worse than not moving
   (`tcg_never_worse`).
 
-Induction over the passes, no bound on `n` or on the number of passes.  What stays outside: the second phase
-(`improve_tcg`), rounding, and the other four solvers — covered by the exact evaluation of the specification on
+Induction over the passes, no bound on `n` or on the number of passes.  The second phase (`improve_tcg`) and the
+solver as a whole are in `Props/C15Improve.lean`.  What stays outside: rounding, and the other four solvers — covered by the exact evaluation of the specification on
 sampled calls (harness/props/c15.py, c16.py).  The tie of this model to the code is the differential run of
 `DriverAlg.lean tcg` against the real solver with `improve_tcg=False`.
 -/
